@@ -39,6 +39,8 @@ TARGETED = [
     "+(a OR b) c", "+(a b) c", "+(a AND b) c", "+t:(a OR b) c", "n:(+(x:d OR x:d2) y:e)", "NOT a OR b c", "+a OR b c", "-a OR b c", "c NOT a OR b",
     # several required / optional / excluded clauses of one boolean operation on the same nested path (one object each may satisfy them)
     "+n.x:d +n.x:d2", "+n.x:d +n.y:e c", "+n.m.z:g +n.m.z:g2", "n.x:d n.x:d2", "+n.x:d -n.x:d2 n.y:e", "-n.x:d -n.x:d2", "+n:(x:d) +n:(x:d2)",
+    # a boosted group / field group as one optional clause among others (boolean operations tell required from optional clauses)
+    "(a b)^2 c", "(a OR b)^2 c", "c t:(a b)^3", "n:(x:d (y:e y:e2)^2)", "(a -b)^2 c", "a (b -c)", "+a (b -c)", "(a b)^2 (c d)^3",
     "nx:q", "nx:q AND n.x:d", "n.mz:p", "n:(mz:p)", "n:(mz:p AND m.z:g)", "n.xy:r OR n.x:d", "n_m:s n.m.z:g",
 ]
 
